@@ -10,7 +10,9 @@
 //! run, so a process abort can be attributed.
 mod rng;
 mod tree;
+mod c01;
 mod c04;
+mod pushio;
 
 use std::io::Write;
 use std::panic::{catch_unwind, AssertUnwindSafe};
@@ -39,7 +41,7 @@ pub struct Prop {
 }
 
 fn props() -> Vec<Prop> {
-    vec![c04::PROP]
+    vec![c01::PROP, c01::PROP2, c01::PROP3, c04::PROP]
 }
 
 /// observation used when the implementation panicked
@@ -71,6 +73,17 @@ fn real_main() {
     if args.len() < 3 {
         eprintln!("usage: vh <prop> gen <tier> <seed> <out> | vh <prop> run <in> <out>");
         std::process::exit(2);
+    }
+    if args[1] == "render" {
+        // float bit patterns -> Rust's own `{}` rendering (the text oracle for printed floats)
+        let txt = std::fs::read_to_string(&args[2]).expect("read");
+        let mut f = std::io::BufWriter::new(std::fs::File::create(&args[3]).expect("create"));
+        for l in txt.lines() {
+            let b: u64 = l.trim().parse().expect("bits");
+            writeln!(f, "{}", ordered_float::OrderedFloat(f64::from_bits(b))).unwrap();
+        }
+        f.flush().unwrap();
+        return;
     }
     let ps = props();
     let Some(p) = ps.iter().find(|p| p.name.eq_ignore_ascii_case(&args[1])) else {
